@@ -74,7 +74,11 @@ def exec_rpe(job):
     orig = metrics.id_pairs_from_delta
 
     def spy(poses, *a, **kw):       # stage wrapper: which trajectory drives the selection, and what it returned
-        rec["driver"] = "ref" if poses is ref._poses_se3 else ("est" if poses is est._poses_se3 else "other")
+        def same(t):             # by identity or by content of the public view (no private names)
+            q = t.poses_se3
+            return poses is q or (len(poses) == len(q) and all(a is b or np.array_equal(a, b) for a, b in zip(poses, q)))
+        is_ref, is_est = same(ref), same(est)
+        rec["driver"] = "both" if is_ref and is_est else "ref" if is_ref else "est" if is_est else "other"
         prs = orig(poses, *a, **kw)
         rec["pairs"] = [[int(i), int(j)] for i, j in prs]
         return prs
